@@ -1102,7 +1102,8 @@ func Document(seed uint64) GenDoc {
 		// the attributes of <html>, <head> and <body> as templates emit them: any subset, in any order
 		g.f("root-attr-mix")
 		pool := []string{`lang="en"`, `class="no-js"`, `xmlns="http://www.w3.org/1999/xhtml"`, `xmlns:og="http://ogp.me/ns#"`, `xmlns:fb="http://ogp.me/ns/fb#"`, `xmlns:article="http://ogp.me/ns/article#"`,
-			`prefix="og: http://ogp.me/ns#"`, `itemscope`, `itemtype="http://schema.org/Article"`, `dir="ltr"`, `id="top"`, `data-theme="dark"`, `manifest="x.appcache"`, `xml:lang="en"`, `hidden`, `style="display:none"`, `class="article hentry"`, `itemid="#a"`, `itemref="author-box"`, `vocab="http://schema.org/"`, `typeof="Article"`}
+			`prefix="og: http://ogp.me/ns#"`, `itemscope`, `itemtype="http://schema.org/Article"`, `dir="ltr"`, `id="top"`, `data-theme="dark"`, `manifest="x.appcache"`, `xml:lang="en"`, `hidden`, `style="display:none"`, `class="article hentry"`, `itemid="#a"`, `itemref="author-box"`, `vocab="http://schema.org/"`, `typeof="Article"`,
+			`prefix="2og: http://ogp.me/ns# 3a: http://ogp.me/ns/article#"`, `xmlns:1og="http://ogp.me/ns#"`, `prefix="og: http://ogp.me/ns# _x: http://ogp.me/ns#"`}
 		mix := func() string {
 			var out string
 			for i := 0; i < g.r2.Range(1, 6); i++ {
@@ -1124,6 +1125,42 @@ func Document(seed uint64) GenDoc {
 				}
 			}
 		}
+	}
+	if g.r2.P(1, 7) {
+		// server-side rendered text: empty comments between the pieces of a text (React emits "1<!-- -->2")
+		g.f("ssr-comments")
+		var sb strings.Builder
+		inTag, raw := false, ""
+		lb := []byte(page)
+		for i, c := range lb {
+			if c >= 'A' && c <= 'Z' {
+				lb[i] = c + 32 // ASCII only: byte offsets must stay those of page
+			}
+		}
+		low := string(lb)
+		for i := 0; i < len(page); i++ {
+			ch := page[i]
+			if ch == '<' {
+				inTag = true
+				for _, t := range []string{"script", "style", "title", "textarea", "xmp", "noscript", "iframe"} {
+					if strings.HasPrefix(low[i+1:], t) {
+						raw = t
+					}
+					if raw == t && strings.HasPrefix(low[i+1:], "/"+t) {
+						raw = ""
+					}
+				}
+			}
+			if ch == ' ' && !inTag && raw == "" && g.r2.P(1, 12) {
+				sb.WriteString(Pick(g.r2, []string{"<!-- -->", " <!---->", "<!-- --> <!-- -->", "<!--x-->"}))
+			} else {
+				sb.WriteByte(ch)
+			}
+			if ch == '>' {
+				inTag = false
+			}
+		}
+		page = sb.String()
 	}
 	d := GenDoc{Bytes: []byte(page), URL: url, UTF8: true}
 	for f := range g.feat {
